@@ -179,6 +179,9 @@ class NP(object):
         shp = shape if isinstance(shape, (tuple, list)) else (shape,)
         shp = tuple(pysym._toint(s) for s in shp)
         if any(isinstance(s, P) for s in shp):
+            if len(shp) == 2:
+                from .kernel import FilledMat
+                return FilledMat(self.interp.newname('mat'), shp)
             if len(shp) != 1:
                 return OutArray(self.interp.newname('arr'), shp)
             return OutArray(self.interp.newname('arr'), shp[0], 'int' if dtype in (int, 'int64') else 'double')
